@@ -575,6 +575,21 @@ func c01FreshBuffer(c *Ctx) {
 				return
 			}
 			var tgt ssa.Value
+			if _, isProd := frameProducer(c, ir.StaticCallee(call)); isProd && !isDecode(call) {
+				// a frame helper decodes into a value of its own: a new one on every call
+				sc := ir.StaticCallee(call)
+				raw := false
+				for i := 0; i < sc.Signature.Results().Len(); i++ {
+					if holdsRaw(sc.Signature.Results().At(i).Type(), 0) {
+						raw = true
+					}
+				}
+				if raw {
+					n++
+					c.R.Hold("R-fresh-buffer", "decode buffer in "+fname(fn), c.Pos(call.Pos()), "each frame is decoded by "+fname(sc)+" into a buffer of its own call")
+				}
+				return
+			}
 			if isDecode(call) {
 				tgt = ir.Unwrap(call.Call.Args[len(call.Call.Args)-1])
 			} else if sc := ir.StaticCallee(call); sc != nil {
